@@ -119,6 +119,47 @@ func (m *Machine) installExterns() {
 			m.ex.each(func() { m.call(a[0], nil, site) })
 			return nil
 		},
+		"vSharedWrites": func(m *Machine, a []value, site ssa.Instruction) value {
+			// number of writes, performed while no mutex is held, to memory that existed before f started:
+			// two goroutines running f on the same object race on each of them
+			m.freshOn++
+			if m.freshOn == 1 {
+				m.fresh = map[*value]int{}
+				m.freshMaps = map[*MapV]int{}
+			}
+			entry := m.serial
+			mark := len(m.trail)
+			held0 := m.locksHeld
+			func() {
+				defer func() { m.freshOn-- }()
+				m.call(a[0], nil, site)
+			}()
+			n := int64(0)
+			seen := map[*value]bool{}
+			for _, u := range m.trail[mark:] {
+				if u.kind == 4 {
+					continue
+				}
+				if u.held > held0 {
+					continue // written under a lock acquired inside f
+				}
+				if u.kind != 0 {
+					if sr, ok := m.freshMaps[u.mp]; ok && sr > entry {
+						continue
+					}
+					n++
+					continue
+				}
+				if sr, ok := m.fresh[u.p]; ok && sr > entry {
+					continue
+				}
+				if !seen[u.p] {
+					seen[u.p] = true
+					n++
+				}
+			}
+			return n
+		},
 		"vNoMerge": func(m *Machine, a []value, site ssa.Instruction) value {
 			old := m.noMerge
 			m.noMerge = true
@@ -187,18 +228,21 @@ func (m *Machine) installExterns() {
 		}
 		return f
 	}
-	ex[pkg+"ShouXingUtil.CalcShuo"] = func(m *Machine, a []value, site ssa.Instruction) value {
-		m.unit.native["ShouXingUtil.CalcShuo"]++
-		return ShouXingUtil.CalcShuo(conc(a[0], "CalcShuo"))
+	native := func(name string, f func(float64) float64) externFn {
+		return func(m *Machine, a []value, site ssa.Instruction) (res value) {
+			m.unit.native["ShouXingUtil."+name]++
+			x := conc(a[0], name)
+			defer func() {
+				if r := recover(); r != nil {
+					panic(targetPanic{v: fmt.Sprint(r), msg: fmt.Sprintf("panic inside ShouXingUtil.%s(%v): %v", name, x, r), pos: sitePos(m, site)})
+				}
+			}()
+			return f(x)
+		}
 	}
-	ex[pkg+"ShouXingUtil.CalcQi"] = func(m *Machine, a []value, site ssa.Instruction) value {
-		m.unit.native["ShouXingUtil.CalcQi"]++
-		return ShouXingUtil.CalcQi(conc(a[0], "CalcQi"))
-	}
-	ex[pkg+"ShouXingUtil.QiAccurate2"] = func(m *Machine, a []value, site ssa.Instruction) value {
-		m.unit.native["ShouXingUtil.QiAccurate2"]++
-		return ShouXingUtil.QiAccurate2(conc(a[0], "QiAccurate2"))
-	}
+	ex[pkg+"ShouXingUtil.CalcShuo"] = native("CalcShuo", ShouXingUtil.CalcShuo)
+	ex[pkg+"ShouXingUtil.CalcQi"] = native("CalcQi", ShouXingUtil.CalcQi)
+	ex[pkg+"ShouXingUtil.QiAccurate2"] = native("QiAccurate2", ShouXingUtil.QiAccurate2)
 	// sync.Mutex: a held flag in the first field
 	ex["(*sync.Mutex).Lock"] = func(m *Machine, a []value, site ssa.Instruction) value {
 		p := a[0].(*value)
@@ -206,9 +250,33 @@ func (m *Machine) installExterns() {
 		if h, _ := s[0].(int64); h != 0 {
 			panic(targetPanic{v: "DEADLOCK", msg: "DEADLOCK: Lock of a mutex that is already held (never released on an earlier path)", pos: sitePos(m, site)})
 		}
+		m.trail = append(m.trail, undo{kind: 4, old: int64(m.locksHeld)})
+		m.locksHeld++
 		m.store(&s[0], int64(1))
 		m.unit.events = append(m.unit.events, "Lock")
+		// environment model (C09): other goroutines may have run their critical sections since this
+		// goroutine last held the lock; the harness hook re-chooses the protected state within its invariant
+		if m.unit.Params["ENV"] == 1 && !m.inHook {
+			if pk := m.prog.ImportedPackage("github.com/6tail/lunar-go/calendar"); pk != nil {
+				if hook := pk.Func("vhOnLock"); hook != nil {
+					m.inHook = true
+					defer func() { m.inHook = false }()
+					m.callFn(hook, nil, nil, site)
+				}
+			}
+		}
 		return nil
+	}
+	ex["(*sync.Mutex).TryLock"] = func(m *Machine, a []value, site ssa.Instruction) value {
+		p := a[0].(*value)
+		s := (*p).(Struct)
+		if h, _ := s[0].(int64); h != 0 {
+			return false
+		}
+		m.trail = append(m.trail, undo{kind: 4, old: int64(m.locksHeld)})
+		m.locksHeld++
+		m.store(&s[0], int64(1))
+		return true
 	}
 	ex["(*sync.Mutex).Unlock"] = func(m *Machine, a []value, site ssa.Instruction) value {
 		p := a[0].(*value)
@@ -217,6 +285,8 @@ func (m *Machine) installExterns() {
 			panic(targetPanic{v: "unlock of unlocked mutex", msg: "sync: unlock of unlocked mutex", pos: sitePos(m, site)})
 		}
 		m.store(&s[0], int64(0))
+		m.trail = append(m.trail, undo{kind: 4, old: int64(m.locksHeld)})
+		m.locksHeld--
 		m.unit.events = append(m.unit.events, "Unlock")
 		return nil
 	}
